@@ -1,1 +1,98 @@
-fn main(){}
+//! schedsim — engine SCHED (C14, C15, C16). Shares engine/rng/seams/world sources with seqsim; links the
+//! mechanically rewritten sentinel-core (shuttle primitives).
+#[path = "../../../sim/seqsim/src/engine.rs"]
+mod engine;
+#[path = "../../../sim/seqsim/src/rng.rs"]
+mod rng;
+#[path = "../../../sim/seqsim/src/seams.rs"]
+mod seams;
+#[path = "../../../sim/seqsim/src/world.rs"]
+mod world;
+
+mod common;
+mod s14;
+mod sched;
+
+use engine::{BatchOpts, Prop};
+use serde_json::json;
+
+fn all_props() -> Vec<&'static dyn Prop> {
+    vec![&s14::C14]
+}
+
+fn find(id: &str) -> &'static dyn Prop {
+    match all_props().into_iter().find(|p| p.id() == id) {
+        Some(p) => p,
+        None => {
+            eprintln!("unknown property {}", id);
+            std::process::exit(2);
+        }
+    }
+}
+
+fn env_u64(k: &str) -> Option<u64> {
+    std::env::var(k).ok().and_then(|v| v.parse().ok())
+}
+
+fn classify(prop_id: &str, loc: &str, msg: &str) -> String {
+    common::classify(prop_id, loc, msg)
+}
+
+fn main() {
+    let _ = engine::CLASSIFY.set(classify);
+    let args: Vec<String> = std::env::args().collect();
+    if args.len() < 2 {
+        eprintln!("usage: schedsim batch <prop> quick|thorough | worker .. | one <prop> <file> | replay <file> | gen <prop> <idx>");
+        std::process::exit(2);
+    }
+    match args[1].as_str() {
+        "batch" => {
+            let prop = find(&args[2]);
+            let thorough = args.get(3).map(|s| s == "thorough").unwrap_or(false);
+            let opts = BatchOpts {
+                thorough,
+                seed: env_u64("VERIF_SEED").unwrap_or(engine::DEFAULT_SEED),
+                workers: env_u64("VERIF_WORKERS").unwrap_or(16).max(1),
+                runs_override: env_u64("VERIF_RUNS"),
+                wall_override: env_u64("VERIF_WALL_S"),
+                write_evidence: std::env::var("VERIF_NO_EVIDENCE").is_err(),
+                from: env_u64("VERIF_FROM").unwrap_or(0),
+            };
+            std::process::exit(engine::batch_main(prop, opts));
+        }
+        "worker" => {
+            let prop = find(&args[2]);
+            let p = |i: usize| args[i].parse::<u64>().unwrap();
+            engine::worker_main(prop, p(3), p(4), p(5), p(6), args[7].parse::<u128>().unwrap(), args[8] == "1");
+        }
+        "one" => {
+            let prop = find(&args[2]);
+            let sc: serde_json::Value = serde_json::from_slice(&std::fs::read(&args[3]).expect("read scenario")).expect("parse scenario");
+            let (v, th, cov, rw) = engine::one_main(prop, &sc);
+            let out = match v {
+                Some(v) => json!({"signature": v.signature, "detail": v.detail, "at_op": v.at_op, "trace_hash": th, "counters": cov.counters, "rewrite": rw}),
+                None => json!({"signature": null, "detail": "", "at_op": -1, "trace_hash": th, "counters": cov.counters, "rewrite": rw}),
+            };
+            println!("RESULT {}", out);
+        }
+        "replay" => {
+            std::process::exit(engine::replay_main(&all_props(), &args[2]));
+        }
+        "gen" => {
+            let prop = find(&args[2]);
+            let idx: u64 = args[3].parse().unwrap();
+            let seed = env_u64("VERIF_SEED").unwrap_or(engine::DEFAULT_SEED);
+            let sc = engine::make_scenario(prop, seed, idx, false);
+            println!("{}", serde_json::to_string_pretty(&sc).unwrap());
+        }
+        "trace" => {
+            let prop = find(&args[2]);
+            let p = |i: usize| args[i].parse::<u64>().unwrap();
+            engine::trace_main(prop, env_u64("VERIF_SEED").unwrap_or(engine::DEFAULT_SEED), p(3), p(4), p(5));
+        }
+        x => {
+            eprintln!("unknown command {}", x);
+            std::process::exit(2);
+        }
+    }
+}
